@@ -10,10 +10,13 @@ from .core import ENG, Sym, SymBool, Unsupported, has_sym, tob
 SYMBOLIC = [False]   # when True, float/complex constructors return object arrays
 
 
+ACTIVE = [False]     # set by loader.install(): the shimmed modules are loaded (False in replays: plain modules)
+
+
 class symbolic_mode:
     def __enter__(self):
         self.prev = SYMBOLIC[0]
-        SYMBOLIC[0] = True
+        SYMBOLIC[0] = ACTIVE[0]
 
     def __exit__(self, *a):
         SYMBOLIC[0] = self.prev
@@ -193,6 +196,8 @@ class SymArray(_np.ndarray):
         return core.Or(*[_truth(x) for x in self.flat])
 
     def round(self, decimals=0, out=None):
+        if not has_sym(self):
+            return _np.round(_defloat(_np.asarray(self)), decimals).astype(object).view(SymArray)
         from .loader import PROXY
         return PROXY.round(self, decimals)
 
